@@ -43,7 +43,16 @@ def simplex(rng, k, denom=20, allow_zero=True):
     if not allow_zero:
         parts = [max(1, p) for p in parts]
         parts[parts.index(max(parts))] -= sum(parts) - denom
-    return [p / denom for p in parts]
+    out = [p / denom for p in parts]
+    if k >= 2 and rng.random() < 0.12:
+        # a hair's breadth: shift 2e-9 from one entry to another (still sums to 1 within the documented 8-decimal check);
+        # exact handling of the given numbers decides near-ties, and a positive share may be as small as 4e-9
+        i, j = rng.sample(range(k), 2)
+        if out[i] > 1e-6:
+            e = rng.choice([2e-9, 4e-9])
+            out[i] -= e
+            out[j] += e
+    return out
 
 
 def gen_case(rng, gens=GENERATORS, max_total=6):
@@ -85,6 +94,10 @@ def gen_case(rng, gens=GENERATORS, max_total=6):
         intervals[b] = {}
         for s in blocs:
             vals = [rng.choice([0, 0.1, 0.2, 0.5, 1, 1, 2, 5]) if rng.random() < 0.35 else rng.choice([0.2, 0.5, 1, 2, 3]) for _ in slates[s]]
+            if len(vals) >= 2 and rng.random() < 0.08:
+                # strictly positive but tiny supports: still supported candidates, to be ranked, never tied or dropped
+                for i in rng.sample(range(len(vals)), rng.randint(1, 2)):
+                    vals[i] = rng.choice([1e-9, 2e-9, 3e-9])
             if not any(v > 0 for v in vals):
                 vals[rng.randrange(len(vals))] = 1
             items = list(zip(slates[s], vals))
